@@ -140,7 +140,9 @@ def _canon(prog, fi, cmp_node, params):
             return "call:" + nm.split(".")[-1]
         return "expr"
     kl, kr = kind(l), kind(r)
-    thr_left = kl.startswith("param:") and not kr.startswith("param:") and params.index(kl[6:]) > 0
+    def pidx(k):
+        return params.index(k[6:]) if k.startswith("param:") and k[6:] in params else None
+    thr_left = pidx(kl) is not None and pidx(kl) > 0 and (pidx(kr) is None or pidx(kr) == 0)
     const_left = kl.startswith("const:") and not kr.startswith("const:")
     if thr_left or const_left:
         return (kr, flip.get(op, op), kl)
@@ -200,3 +202,25 @@ def sense(prog, run):
         ok = pos[1] in cn and isinstance(keep, ast.Name) and keep.id in loopvars and isnan
         run.ob("R-sense", fi.qual, "np.where(mask, arr, nan)", ok, f"`{astq.src(c, 70)}`" + ("" if ok else ": does not keep the array where the mask is true and write NaN elsewhere"),
                witness=astq.src(c, 70), file=f, node=c)
+
+
+AS, AP, G = "algorithms.ssi", "algorithms.plscf", "functions.gen"
+MUTANTS = [
+    ("C09-m01 stale list reused for the second mode-shape mask", AS, "SSIdat.run", "lista = [Fns, Xis, Phis, Lambds, Fn_cov, Xi_cov, Phi_cov]", "pass", 2),
+    ("C09-m03 limits swapped", AP, "pLSCF.run", "gen.HC_phi_comp(Phis, hc_mpc_lim, hc_mpd_lim)", "gen.HC_phi_comp(Phis, hc_mpd_lim, hc_mpc_lim)"),
+    ("C09-m04 MPD criterion inverted", G, "HC_phi_comp", "MPD(phi[o, i, :]) <= mpd_lim", "MPD(phi[o, i, :]) >= mpd_lim"),
+    ("C09-m05 damping criterion block deleted", AP, "pLSCF_MS.run", "Fns, Phis = gen.applymask(lista, mask2, Phis.shape[2])", "pass"),
+    ("C09-m06 mask keeps the rejected poles", G, "applymask", "np.where(mask, arr, np.nan)", "np.where(mask, np.nan, arr)"),
+    ("C09-m07 same mask twice in the multi-setup class", AS, "SSIdat_MS.run", "gen.applymask(lista, mask4, Phis.shape[2])", "gen.applymask(lista, mask3, Phis.shape[2])"),
+    ("C09-m08 zero damping accepted", G, "HC_damp", "damp > 0", "damp >= 0"),
+    ("C09-m09 covariance criterion uses xi_max", AS, "SSIdat.run", "gen.HC_cov(Fn_cov, hc_cov_max)", "gen.HC_cov(Fn_cov, hc_xi_max)"),
+    ("C09-m10 conjugate criterion masks the frequencies only", AP, "pLSCF.run", "Fns, Xis, Phis = gen.applymask(lista, mask1, Phis.shape[2])", "Fns, = gen.applymask([Fns], mask1, Phis.shape[2])"),
+    ("C09-m11 MPC criterion non-inclusive", G, "HC_phi_comp", "MPC(phi[o, i, :]) >= mpc_lim", "MPC(phi[o, i, :]) > mpc_lim"),
+    ("C09-m12 covariance tables escape the MPC mask", AS, "SSIdat.run", "Fns, Xis, Phis, Lambds, Fn_cov, Xi_cov, Phi_cov = gen.applymask(lista, mask4, Phis.shape[2])", "Fns, Xis, Phis, Lambds = gen.applymask(lista[:4], mask4, Phis.shape[2])"),
+]
+REWRITES = [
+    ("rename:C09-r01", AS, "SSIdat.run", "lista", "tables"),
+    ("C09-r02 flipped comparison", G, "HC_damp", "damp < max_damp", "max_damp > damp"),
+    ("C09-r03 combined mode-shape mask", AP, "pLSCF.run", "Fns, Xis, Phis = gen.applymask(lista, mask3, Phis.shape[2])", "Fns, Xis, Phis = gen.applymask(lista, mask3 * mask4, Phis.shape[2])"),
+    ("C09-r04 inline list", AP, "pLSCF_MS.run", "Fns, Xis, Phis = gen.applymask(lista, mask4, Phis.shape[2])", "Fns, Xis, Phis = gen.applymask([Fns, Xis, Phis], mask4, Phis.shape[2])"),
+]
